@@ -49,6 +49,7 @@ type plan struct {
 	Name      string
 	BadName   string
 	Secret    []byte
+	Secret32  []byte // Secret followed by 16 more bytes
 	Shape     string
 }
 
@@ -64,6 +65,7 @@ type result struct {
 	OpDescs  []string
 	Obs      []stepObs
 	PubKey   []byte
+	Secret   []byte
 	JoinArgs [][2]string
 	Err      string
 	Notes    []string
@@ -118,6 +120,8 @@ func run(pl plan) (res result) {
 	closed := false
 	nJoins, nEvents := 0, 0
 	everRegistered := false
+	var lastSecret []byte
+	res.Secret = pl.Secret
 	keyWindow := pl.Protocol >= e2e.P1_19 && pl.Protocol < e2e.P1_19_3
 	dummyKey, _ := rsa.GenerateKey(rand.Reader, 1024)
 	dummyDER, _ := x509.MarshalPKIXPublicKey(&dummyKey.PublicKey)
@@ -163,6 +167,24 @@ func run(pl plan) (res result) {
 				tok[0] ^= 0x01
 			case "bad-secret-len":
 				secret = pl.Secret[:8]
+			case "token-empty":
+				tok = nil
+			case "token-prefix1", "token-prefix2", "token-prefix3":
+				if n := int(o.EncVar[len(o.EncVar)-1] - '0'); n < len(tok) {
+					tok = tok[:n]
+				}
+			case "token-plus1":
+				tok = append(tok, 0x00)
+			case "token-plus4":
+				tok = append(tok, 0xde, 0xad, 0xbe, 0xef)
+			case "secret-len0":
+				secret = nil
+			case "secret-len15":
+				secret = pl.Secret[:15]
+			case "secret-len17":
+				secret = pl.Secret32[:17]
+			case "secret-len32":
+				secret = pl.Secret32
 			}
 			tokCT, _ := rsa.EncryptPKCS1v15(rand.Reader, pub, tok)
 			secCT, _ := rsa.EncryptPKCS1v15(rand.Reader, pub, secret)
@@ -182,11 +204,12 @@ func run(pl plan) (res result) {
 			desc = fmt.Sprintf("encryption-response %s (token_ok=%v secret_ok=%v keylen_ok=%v, request seen=%v)", o.EncVar, tokenOK, secretOK, keylenOK, encReq != nil)
 			_ = c.Send(e2e.IDEncryptionResponse, e2e.EncryptionResponse(pl.Protocol, secCT, tokCT))
 			// like a real client: switch the stream ciphers on right after answering a request
-			if encReq != nil && !encOn && len(secret) == 16 {
+			if encReq != nil && !encOn && (len(secret) == 16 || len(secret) == 24 || len(secret) == 32) {
 				if err := c.EnableEncryption(secret); err == nil {
 					encOn = true
 				}
 			}
+			lastSecret = secret
 		case kPlugin:
 			term, desc = "PluginResp", "login-plugin-response (unsolicited id)"
 			_ = c.Send(e2e.IDLoginPluginResponse, e2e.LoginPluginResponse(77+o.UnkVar, o.UnkVar%2 == 0, []byte{1, 2, 3}))
@@ -288,6 +311,9 @@ func run(pl plan) (res result) {
 			}
 			calls := authn.Calls()
 			so.Joins = len(calls) - nJoins
+			if so.Joins > 0 && o.Kind == kEnc {
+				res.Secret = lastSecret // the secret of the response that led to the hasJoined call
+			}
 			nJoins = len(calls)
 			evs := ev.List()
 			// registration evidence that cannot race with the close: PostLoginEvent fired while
@@ -319,7 +345,10 @@ func run(pl plan) (res result) {
 }
 
 func genOps(r *lib.Rng, protocol int) ([]op, string) {
-	encVars := []string{"good", "good", "good", "bad-token-value", "bad-token-ct", "bad-secret-ct", "bad-secret-len"}
+	encVars := []string{"good", "good", "good", "good", "bad-token-value", "bad-token-ct", "bad-secret-ct", "bad-secret-len",
+		"token-empty", "token-prefix1", "token-prefix3", "token-plus1", "secret-len15", "secret-len32"}
+	lengthVars := []string{"token-empty", "token-prefix1", "token-prefix2", "token-prefix3", "token-plus1", "token-plus4",
+		"secret-len0", "secret-len15", "secret-len17", "secret-len32"}
 	keyVar := func() string {
 		if r.Chance(1, 4) {
 			return r.PickS("expired", "invalid")
@@ -359,7 +388,12 @@ func genOps(r *lib.Rng, protocol int) ([]op, string) {
 		return [][]op{{enc("good")}, {{Kind: kAck}}, {login(true), {Kind: kAck}}, {enc("good"), login(true)}, {login(true), login(true), enc("good")},
 			{login(true), enc("good"), enc("good")}, {login(true), enc("good"), {Kind: kAck}, {Kind: kAck}}}[r.Intn(7)], "skipped-or-repeated"
 	case 6: // bad names and keys
-		return []op{login(false), enc("good")}, "invalid-name"
+		if r.Chance(1, 2) {
+			return []op{login(false), enc("good")}, "invalid-name"
+		}
+		fallthrough
+	case 7: // a correctly encrypted token/secret of the wrong LENGTH (prefix, empty, extended), everything else valid
+		return []op{{Kind: kLogin, NameValid: true, Key: "none"}, enc(lengthVars[r.Intn(len(lengthVars))]), {Kind: kAck}}, "wrong-length"
 	default:
 		n := r.Range(0, 6)
 		var ops []op
@@ -375,7 +409,7 @@ func main() {
 	rng := lib.NewRng(f.Seed)
 	out := lib.NewOut("C08", f)
 	out.Imports = "From Verif Require Import Model.Login.\n"
-	out.Rule = "protocols 1.8 / 1.19.1 (key window) / 1.20.1 / 1.20.2 / 26.2; online mode 85%, pre-login result none/deny/force-online/force-offline, compression on/off, ForceKeyAuthentication on/off, session outcome profile (40%) or one of 204/401/500/transport error/empty body/bad profile; packet sequences of length <= 6: vanilla exchange with one response variant (good, wrong token, corrupted token ciphertext, corrupted secret ciphertext, 8-byte secret), vanilla with one inserted packet, skipped/repeated steps, invalid names, random sequences over {login start (valid/invalid name, no/expired/forged key), encryption response variants, unsolicited plugin response, login acknowledged, unknown/undecodable packet}; non-trivial = the sequence contains a login start AND an encryption response; distinct = distinct (configuration, operations) ignoring key material"
+	out.Rule = "protocols 1.8 / 1.19.1 (key window) / 1.20.1 / 1.20.2 / 26.2; online mode 85%, pre-login result none/deny/force-online/force-offline, compression on/off, ForceKeyAuthentication on/off, session outcome profile (40%) or one of 204/401/500/transport error/empty body/bad profile; packet sequences of length <= 6: vanilla exchange with one response variant (good, wrong token, corrupted token ciphertext, corrupted secret ciphertext, 8-byte secret, correctly encrypted tokens of the wrong length: empty / 1-3 byte prefix / issued token + 1 or 4 bytes, secrets of 0/15/17/32 bytes), vanilla with one inserted packet, skipped/repeated steps, invalid names, random sequences over {login start (valid/invalid name, no/expired/forged key), encryption response variants, unsolicited plugin response, login acknowledged, unknown/undecodable packet}; non-trivial = the sequence contains a login start AND an encryption response; distinct = distinct (configuration, operations) ignoring key material"
 	n := f.Count(300)
 	validAlpha := "abcdefghijklmnopqrstuvwxyzABCDEFGHIJKLMNOPQRSTUVWXYZ0123456789_"
 	plans := make([]plan, n)
@@ -394,9 +428,13 @@ func main() {
 			pl.Outcome = e2e.Outcome(r.Range(1, 6))
 		}
 		pl.Ops, pl.Shape = genOps(r, pl.Protocol)
+		if pl.Shape == "wrong-length" { // make sure nothing else stands between this response and an admission
+			pl.Online, pl.PreLogin, pl.Outcome, pl.ForceKey = true, "", e2e.OutProfile, false
+		}
 		pl.Name = r.StringOver(validAlpha, r.Range(2, 16))
 		pl.BadName = r.PickS("x", "bad name", "way_too_long_name_17", "semi;colon", "tab\tname")
 		pl.Secret = r.Bytes(16)
+		pl.Secret32 = append(append([]byte{}, pl.Secret...), r.Bytes(16)...)
 		plans[i] = pl
 	}
 	results, errs := e2e.RunParallel(n, 16, func(i int) result {
@@ -417,7 +455,7 @@ func main() {
 			return lib.App("Check.C08.mkObs", lib.List(s.Frames), lib.Bool(s.EncOn), lib.Nat(s.Joins), lib.Bool(s.Registered))
 		})
 		joinTerm := lib.ListOf(res.JoinArgs, func(a [2]string) string { return lib.Pair(lib.Str(a[0]), lib.Str(a[1])) })
-		term := lib.App("Check.C08.mk", conf, lib.List(res.OpTerms), obsTerm, lib.Bytes(pl.Secret), lib.Bytes(res.PubKey), lib.Str(pl.Name), joinTerm)
+		term := lib.App("Check.C08.mk", conf, lib.List(res.OpTerms), obsTerm, lib.Bytes(res.Secret), lib.Bytes(res.PubKey), lib.Str(pl.Name), joinTerm)
 		var obsDesc []string
 		for _, s := range res.Obs {
 			obsDesc = append(obsDesc, fmt.Sprintf("%s enc=%v joins=%d registered=%v", strings.Join(s.Frames, ","), s.EncOn, s.Joins, s.Registered))
